@@ -49,6 +49,7 @@ def _arm(d, world, acts):
 
 def _strict(world):
     world.strict_reuse = True       # KF-42: no name re-use inside a window anywhere in the crash domain
+    world.stale_strict = True       # a crash in the middle of an intake batch leaves only its first events applied (KF-43 fence)
 
 
 def gen(d, tier):
@@ -70,6 +71,7 @@ def crash_guard_ok(trace, always=False):
     world.guard_retouch = True if always else False
     world.crash_mode = True
     world.strict_reuse = True
+    world.stale_strict = True
     for a in trace["acts"]:
         if a[0] == "u":
             op = tuple(a[2:])
@@ -153,6 +155,7 @@ def gen_enum(d, tier):
         world.guard_retouch = True      # a crash may land anywhere: the guard holds in every window
         world.crash_mode = True
         world.strict_reuse = True
+        world.stale_strict = True
     if d.bool():
         return gen_batch(d, cfg, sides)
     acts, world = gen_history(d, cfg, sides=sides, n_ops=(2, 6), with_base=d.bool(), world_init=init)
@@ -168,6 +171,7 @@ def gen_batch(d, cfg, sides):
     world = World(path_style=(cfg["L"] == "path", cfg["R"] == "path"))
     world.crash_anywhere = True
     world.strict_reuse = True
+    world.stale_strict = True
     acts = []
     if d.bool():
         emit_base(d, world, acts, d.choice(sides))
@@ -202,6 +206,7 @@ def batch_ok(trace):
     def init(world):
         world.crash_anywhere = True
         world.strict_reuse = True
+        world.stale_strict = True
     sides = (0, 1) if "origin" not in cfg else (cfg["origin"],)
     return envelope_ok(trace, sides=sides, world_init=init)
 
